@@ -77,6 +77,7 @@ type Machine struct {
 	symDecides int
 	guards     []*Term // active vp.SetIf conditions (guarded store writes)
 	marsh      []*marshalled
+	hexNib     map[*Term]*Term // hex character term -> the nibble it encodes
 	model      map[*Term]*big.Int // last satisfying assignment of the path condition (nil = none)
 	modelMemo  map[*Term]*Term
 	curRep    *EntryReport
